@@ -48,6 +48,7 @@ def build(tier, rnd):
             st = g.statement(rnd.choice([2, 3, 3, 4]))
             out.append((("random", i), st, ["ansi", alld[i % len(alld)], alld[(i * 7 + 3) % len(alld)]]))
     out += same_alias_and_case_cases(9 if tier == "quick" else 60, common.env.seed() * 31 + 5)
+    out += paren_setop_cases(15 if tier == "quick" else 100, common.env.seed() * 37 + 5)
     # statement kinds that only some dialects accept are always shown to dialects that do
     g2 = sqlgen.Gen(random.Random(99))
     for i in range(6):
@@ -77,6 +78,31 @@ def same_alias_and_case_cases(n, seed):
     return out
 
 
+def paren_setop_cases(n, seed):
+    """parenthesised set operations where a single relation / sub-query is expected: as predicate sub-query (IN / EXISTS / scalar comparison),
+    as derived table, and as the first relation of a parenthesised join group (alone or after a plain table)"""
+    from vlib.sqlgen import Base, Derived, Group, Item, Nested, P, Select, SetOp, Stmt, col
+    rnd = random.Random(seed + 11)
+    out = []
+    for i in range(n):
+        def branch(j):
+            return Select([Item(col("c_1"), "o_1")], [Group(Base(f"tb_ps{i}_{j}", rnd.choice([None, "sa"])))])
+        so = SetOp(rnd.choice(["union", "union all", "intersect", "except"]), [branch(j) for j in range(rnd.choice([2, 3]))], paren=True)
+        outer = Base(f"tb_po{i}", None, "x1")
+        k = i % 5
+        if k < 3:
+            pk = ["in", "exists", "scalar"][k]
+            q = Select([Item(col("c_2", "x1"))], [Group(outer)], where=P(pk, colref=col("c_3", "x1"), query=so))
+        elif k == 3:
+            q = Select([Item(col("o_1", "dq1"))], [Group(outer, [("inner", Derived(so, "dq1"), "on")])])
+        else:
+            other = Base(f"tb_pz{i}", None, None)
+            q = Select([Item(col("o_1", "dq1"))], [Group(outer, [(rnd.choice(["left", "right", "inner"]), Nested(Group(Derived(so, "dq1"), [("full", other, "on")])), "on")])])
+        kind = rnd.choice(["insert", "ctas", "bare"])
+        out.append((("paren_setop", i), Stmt(kind, Base(f"tb_pw{i}") if kind != "bare" else None, q), ["ansi", rnd.choice(["athena", "postgres", "mysql", "snowflake", "sparksql", "trino"])]))
+    return out
+
+
 SELECT_INTO_DIALECTS = {"ansi", "tsql", "postgres", "redshift", "greenplum"}
 SUPPORTED_KINDS = {"insert", "insert_cols", "ctas", "create_view", "select_into", "update", "merge", "copy", "bare", "insert_values", "create_like"}
 
@@ -84,7 +110,8 @@ SUPPORTED_KINDS = {"insert", "insert_cols", "ctas", "create_view", "select_into"
 GENERIC = [("where.in_subquery_comma_join", "KF-32")]
 # per-dialect blind spots: "<dialect>:<mechanism>" -> finding id (the mechanism is a risk tag of the AST, or kind:target / kind:source / kind:unsupported)
 DIALECT = {"clickhouse:where.subquery": "KF-14a", "clickhouse:from.mixed_comma_join_any": "KF-14a", "exasol:create_view:target": "KF-14b",
-           "impala:ctas:unsupported": "KF-14c", "exasol:create_like:source": "KF-14d", "vertica:create_like:unsupported": "KF-14d"}
+           "impala:ctas:unsupported": "KF-14c", "exasol:create_like:source": "KF-14d", "vertica:create_like:unsupported": "KF-14d",
+           **{f"{d}:where.exists_setop_paren": "KF-14i" for d in ("bigquery", "databricks", "sparksql", "sqlite", "trino")}}
 
 
 def classify(stmt, dialect, exp, obs_read, obs_write, ds=None):
